@@ -21,7 +21,10 @@ TypeOps == {"to_null", "to_bool", "to_num", "to_str", "to_arr", "to_obj", "to_em
 StructOps == {"delete", "dup_key_other_type", "nest_deep", "huge_number", "truncate_here", "byte_noise"}
 RefOps == {"ref_dangling", "ref_self", "ref_parent", "ref_wrong_kind", "ref_scalar", "ref_array_elem", "ref_escaped_ptr",
            "ref_hash_only", "ref_empty", "ref_ext_scalar", "ref_ext_array", "ref_ext_empty", "ref_ext_nonjson", "ref_ext_missing",
-           "ref_cycle_two", "ref_array_len", "ref_array_beyond", "ref_array_neg", "ref_array_nonnum", "ref_deep_array_len"}
+           "ref_cycle_two", "ref_array_len", "ref_array_beyond", "ref_array_neg", "ref_array_nonnum", "ref_deep_array_len",
+           "ref_absent_subfield",          \* a pointer to a keyword the target schema does not have (not / items / additionalProperties)
+           "ref_through_unresolved_ref",   \* a pointer that passes through a component which is itself a not-yet-resolved pure $ref
+           "ref_callback_self"}            \* a callback whose operation refers to the callback again
 Ops == TypeOps \cup StructOps \cup RefOps
 
 Entries == {"data", "datapath", "file"}
